@@ -8,17 +8,21 @@ C10 — The latest assignment wins under every asynchronous completion order.
    after a newer assignment, and assigning a plain value while a result is pending cancels that
    reference permanently."
 
-Model: Async/Model.lean (parameters; `Cfg.current` = the code in /repo as it is, `Cfg.fixed` = the
-proposed patch) and Async/Rx.lean (expression pipelines).  A schedule is any list of events
-`assign p (coro | agen n | plain v)`, `tick`, `complete t k v`; the theorems quantify over all of
-them.  Ghost field `St.last p` = the most recent assignment to `p` (`last_eq_lastOf`: it is what the
-schedule says).  "All awaitables of the assignment have completed" = `Settled` (none of its futures
-is pending) in a state with an empty ready queue.
+Model: Async/Model.lean (parameters; `Cfg.repo` = the code in /repo, i.e. since commits 08165dc and
+0c5ea5c; `Cfg.preFix` = the code before them) and Async/Rx.lean (expression pipelines).  A schedule
+is any list of events `assign p (coro | agen n | plain v)`, `tick`, `complete t k v`; the theorems
+quantify over all of them.  Ghost field `St.last p` = the most recent assignment to `p`
+(`last_is_most_recent_assignment`: it is what the schedule says).  "All awaitables of the
+assignment have completed" = `settled` (none of its futures is pending) in a state with an empty
+ready queue.
 
-The full statement is FALSE of the code as it is: `C10_full_refuted` (four witness schedules, each
-replayed on the real code by the harness).  What holds of it is `…_partial`: every schedule that
-avoids three explicit situations (`hazA`, `hazB`, `hazD` in Async/Spec.lean).  For the patch the
-hazards are vacuous and the same theorems hold for all schedules (`…_fixed`).
+The statement holds of the code in /repo for EVERY schedule: `C10_full_holds`.  It was false of the
+code before the two fixes; the refutations (`old_code_…_refuted`, four witness schedules) and what
+did hold then (`old_code_partial`: every schedule avoiding three explicit situations `hazA`, `hazB`,
+`hazD` of Async/Spec.lean) are kept at the end as regression theorems about the PRE-FIX
+configuration `Cfg.preFix` — they say nothing about the current code.  The harness reads the
+configuration from the source of `_async_ref` on every run and replays the witness schedules
+(corpus/C10) on the real code, where they now have to satisfy the oracle.
 -/
 import ParamVerif.Async.LemmasGhost
 import ParamVerif.Async.RxLemmas
@@ -56,112 +60,60 @@ def SyncingEmptyWhenQuiescent (c : Cfg) (P : List Event → Prop) : Prop :=
 def C10 (c : Cfg) (P : List Event → Prop) : Prop :=
   LatestWins c P ∧ SupersededNeverApplied c P ∧ PlainCancelsForGood c P ∧ SyncingEmptyWhenQuiescent c P
 
-/-- the property as stated, of the code as it is in /repo: every schedule -/
-def C10_full : Prop := C10 Cfg.current (fun _ => True)
+/-- the property as stated, of the code in /repo: every schedule, no side condition -/
+def C10_full : Prop := C10 Cfg.repo (fun _ => True)
 
-/-! ### the code as it is: refutation (each witness is replayed on the real code by the harness) -/
+/-! ### from the invariant: any configuration, schedules that meet no hazard
 
-/-- (a) a plain value assigned while the coroutine is suspended inside `with _syncing` -/
-def witnessA : List Event := [.assign 0 .coro, .tick, .assign 0 (.plain 100), .complete 0 0 10, .tick]
-/-- (b) two coroutine tasks overlap and restore `syncing` in start order -/
-def witnessB : List Event :=
-  [.assign 0 .coro, .assign 1 .coro, .tick, .complete 0 0 10, .tick, .complete 1 0 20, .tick]
-/-- (c) the second of two back-to-back asynchronous assignments never registers its task -/
-def witnessC : List Event :=
-  [.assign 0 (.agen 1), .assign 0 (.agen 1), .tick, .assign 0 (.agen 1), .tick, .complete 2 0 30, .tick,
-   .complete 1 0 20, .complete 0 0 10, .tick]
-/-- (d) a plain value assigned before the scheduled task has started -/
-def witnessD : List Event := [.assign 0 (.agen 1), .assign 0 (.plain 100), .tick, .complete 0 0 10, .tick]
-/-- (c') a superseded result that is already complete is applied when the stale task starts -/
-def witnessC' : List Event := [.assign 0 (.agen 1), .assign 0 (.agen 1), .complete 0 0 10]
-
-theorem plain_assignment_cancels_for_good_refuted : ¬ PlainCancelsForGood Cfg.current (fun _ => True) := by
-  intro h
-  have := (h witnessA 0 100 trivial (by decide)).1
-  revert this
-  decide
-
-/-- … also without any `_syncing` scope involved (generators only) -/
-theorem plain_assignment_cancels_for_good_refuted_before_start :
-    ¬ PlainCancelsForGood Cfg.current (fun _ => True) := by
-  intro h
-  have := (h witnessD 0 100 trivial (by decide)).1
-  revert this
-  decide
-
-theorem syncing_empty_when_quiescent_refuted : ¬ SyncingEmptyWhenQuiescent Cfg.current (fun _ => True) := by
-  intro h
-  have := (h witnessB trivial (by decide) (by decide)).1
-  revert this
-  decide
-
-theorem latest_wins_refuted : ¬ LatestWins Cfg.current (fun _ => True) := by
-  intro h
-  have := h witnessC 0 2 ⟨0, .agen 1, .finished, false⟩ trivial (by decide) (by decide) (by decide) (by decide) (by decide)
-  revert this
-  decide
-
-theorem superseded_never_applied_after_newer_refuted : ¬ SupersededNeverApplied Cfg.current (fun _ => True) := by
-  intro h
-  have := h witnessC' .tick 0 10 trivial (by decide)
-  revert this
-  decide
-
-theorem C10_full_refuted : ¬ C10_full := fun h => plain_assignment_cancels_for_good_refuted h.2.2.1
-
-/-- the witnesses are exactly the schedules the `_partial` theorems exclude … -/
-example : ¬ HazardFree Cfg.current witnessA ∧ ¬ HazardFree Cfg.current witnessB ∧ ¬ HazardFree Cfg.current witnessC ∧
-    ¬ HazardFree Cfg.current witnessD ∧ ¬ HazardFree Cfg.current witnessC' := by
-  unfold HazardFree; decide
-/-- … and the patched variant handles every one of them -/
-example : (run Cfg.fixed witnessA).vals 0 = 100 ∧ (run Cfg.fixed witnessB).syncing = [] ∧
-    (run Cfg.fixed witnessC).vals 0 = 30 ∧ (run Cfg.fixed witnessD).vals 0 = 100 ∧
-    (run Cfg.fixed (witnessC' ++ [.tick])).log = [] := by decide
-
-
-/-! ### what holds: every schedule that meets no hazard — for the patch, every schedule
-
-`HazardFree c evs` (Async/Spec.lean) excludes, for the code as it is (`Cfg.current`), exactly:
-  (a) `hazA`: a plain value assigned to `p` while `p ∈ syncing` (a coroutine is suspended inside its scope);
+`HazardFree c evs` (Async/Spec.lean) is vacuous for `Cfg.repo` (`hazardFree_repo`); for `Cfg.preFix`
+it excludes exactly:
+  (a) `hazA`: a plain value assigned to `p` while `p ∈ syncing` (a coroutine suspended inside its scope);
   (b) `hazB`: a coroutine assigned while another coroutine task is unfinished (overlapping scopes);
-  (c, d) `hazD`: an assignment to `p` while a task of `p` has been scheduled but has not started.
-Each flag of the patch switches one of them off (`hazard_fixed`). -/
+  (c, d) `hazD`: an assignment to `p` while a task of `p` has been scheduled but has not started. -/
 
-theorem latest_wins (c : Cfg) : LatestWins c (HazardFree c) := by
+theorem latest_wins_hazard_free (c : Cfg) : LatestWins c (HazardFree c) := by
   intro evs p t x hz hq hl ht hs hn
   exact inv_latest_wins c _ (inv_run c evs hz) hq p t x hl ht hs hn
 
-theorem plain_assignment_cancels_for_good (c : Cfg) : PlainCancelsForGood c (HazardFree c) := by
+theorem plain_assignment_cancels_for_good_hazard_free (c : Cfg) : PlainCancelsForGood c (HazardFree c) := by
   intro evs p v hz hl
   exact inv_plain c _ (inv_run c evs hz) p v hl
 
-theorem superseded_never_applied_after_newer (c : Cfg) : SupersededNeverApplied c (HazardFree c) := by
+theorem superseded_never_applied_after_newer_hazard_free (c : Cfg) : SupersededNeverApplied c (HazardFree c) := by
   intro evs ev p v hz hm
   rw [run_append] at hm ⊢
   exact writes_applyEvent c _ ev (inv_run c evs (hazardFreeFrom_append c evs _ ev hz)) p v hm
 
-theorem syncing_empty_when_quiescent (c : Cfg) : SyncingEmptyWhenQuiescent c (HazardFree c) := by
+theorem syncing_empty_when_quiescent_hazard_free (c : Cfg) : SyncingEmptyWhenQuiescent c (HazardFree c) := by
   intro evs hz hq ha
   exact inv_quiescent c _ (inv_run c evs hz) hq ha
 
-/-- the code as it is in /repo, minus the three situations above -/
-theorem latest_wins_partial : LatestWins Cfg.current (HazardFree Cfg.current) := latest_wins _
-theorem superseded_never_applied_after_newer_partial :
-    SupersededNeverApplied Cfg.current (HazardFree Cfg.current) := superseded_never_applied_after_newer _
-theorem plain_assignment_cancels_for_good_partial : PlainCancelsForGood Cfg.current (HazardFree Cfg.current) :=
-  plain_assignment_cancels_for_good _
-theorem syncing_empty_when_quiescent_partial : SyncingEmptyWhenQuiescent Cfg.current (HazardFree Cfg.current) :=
-  syncing_empty_when_quiescent _
+/-! ### THE CODE IN /repo: every schedule -/
 
-/-- the proposed patch: every schedule -/
-theorem latest_wins_fixed : LatestWins Cfg.fixed (fun _ => True) :=
-  fun evs p t x _ => latest_wins Cfg.fixed evs p t x (hazardFree_fixed evs)
-theorem superseded_never_applied_after_newer_fixed : SupersededNeverApplied Cfg.fixed (fun _ => True) :=
-  fun evs ev p v _ => superseded_never_applied_after_newer Cfg.fixed evs ev p v (hazardFree_fixed _)
-theorem plain_assignment_cancels_for_good_fixed : PlainCancelsForGood Cfg.fixed (fun _ => True) :=
-  fun evs p v _ => plain_assignment_cancels_for_good Cfg.fixed evs p v (hazardFree_fixed evs)
-theorem syncing_empty_when_quiescent_fixed : SyncingEmptyWhenQuiescent Cfg.fixed (fun _ => True) :=
-  fun evs _ => syncing_empty_when_quiescent Cfg.fixed evs (hazardFree_fixed evs)
+/-- **C10 (latest wins).**  For every schedule — every mix of coroutine / async-generator / plain
+assignments on any parameters, every completion order, ticks anywhere —: once the loop is idle and
+every awaitable of the most recent assignment to `p` has completed, `p` holds its (last) result. -/
+theorem latest_wins : LatestWins Cfg.repo (fun _ => True) :=
+  fun evs p t x _ => latest_wins_hazard_free Cfg.repo evs p t x (hazardFree_repo evs)
+
+/-- **C10 (a superseded result is never applied after a newer assignment).**  Every value stored in
+a parameter during any event of any schedule is the plain value just assigned or a completed result
+of that parameter's most recent asynchronous assignment. -/
+theorem superseded_never_applied_after_newer : SupersededNeverApplied Cfg.repo (fun _ => True) :=
+  fun evs ev p v _ => superseded_never_applied_after_newer_hazard_free Cfg.repo evs ev p v (hazardFree_repo _)
+
+/-- **C10 (a plain assignment cancels the reference for good).**  In every schedule, as long as the
+most recent assignment to `p` is the plain value `v`, `p` holds `v`, is not linked and is owned by
+no task — whatever completes afterwards, in whatever order. -/
+theorem plain_assignment_cancels_for_good : PlainCancelsForGood Cfg.repo (fun _ => True) :=
+  fun evs p v _ => plain_assignment_cancels_for_good_hazard_free Cfg.repo evs p v (hazardFree_repo evs)
+
+/-- **C10 (`syncing` empty when quiescent).** -/
+theorem syncing_empty_when_quiescent : SyncingEmptyWhenQuiescent Cfg.repo (fun _ => True) :=
+  fun evs _ => syncing_empty_when_quiescent_hazard_free Cfg.repo evs (hazardFree_repo evs)
+
+theorem C10_full_holds : C10_full :=
+  ⟨latest_wins, superseded_never_applied_after_newer, plain_assignment_cancels_for_good, syncing_empty_when_quiescent⟩
 
 /-- the ghost field used in the statements is the schedule's most recent assignment to `p`, tasks
 numbered in the order of the asynchronous assignments (`lastOf`, Async/Spec.lean — the function the
@@ -169,17 +121,10 @@ oracle uses) -/
 theorem last_is_most_recent_assignment (c : Cfg) (p : Nat) (evs : List Event) :
     (run c evs).last p = lastOf p evs := last_eq_lastOf c p evs
 
-/-- all four, for the code as it is on hazard-free schedules and for the patch on every schedule -/
-theorem C10_partial : C10 Cfg.current (HazardFree Cfg.current) :=
-  ⟨latest_wins _, superseded_never_applied_after_newer _, plain_assignment_cancels_for_good _, syncing_empty_when_quiescent _⟩
-theorem C10_fixed : C10 Cfg.fixed (fun _ => True) :=
-  ⟨latest_wins_fixed, superseded_never_applied_after_newer_fixed, plain_assignment_cancels_for_good_fixed,
-   syncing_empty_when_quiescent_fixed⟩
+/-! ### expression pipelines (`r.rx.pipe(coroutine function)`, Async/Rx.lean) -/
 
-/-! ### expression pipelines (`r.rx.pipe(coroutine function)`, Async/Rx.lean) — no defect here -/
-
-/-- **Latest wins for an expression that pipes through a coroutine**: for every schedule of input
-changes, ticks and completions — in every order —, once the loop is idle and every evaluation
+/-- **C10 (latest wins for an expression that pipes through a coroutine)**: for every schedule of
+input changes, ticks and completions — in every order —, once the loop is idle and every evaluation
 requested so far has completed, the expression holds the result of the most recent evaluation
 (number `nTasks - 1`: evaluations are numbered in the order they were requested). -/
 theorem rx_latest_wins (evs : List Rx.Event) (hq : (Rx.run evs).ready = [])
@@ -191,22 +136,98 @@ theorem rx_latest_wins (evs : List Rx.Event) (hq : (Rx.run evs).ready = [])
   | none => exact absurd hc this.2
   | some v => exact ⟨v, by simpa [hc] using this.1, rfl⟩
 
-/-- the older evaluation completes last: its result is dropped -/
-example : (Rx.run [.set 20, .tick, .complete 1 20, .tick, .complete 0 10, .tick]).cur = some 20 ∧
-    (Rx.run [.set 20, .tick, .complete 1 20, .tick, .complete 0 10, .tick]).ready = [] ∧
-    Rx.allDone (Rx.run [.set 20, .tick, .complete 1 20, .tick, .complete 0 10, .tick]) = true := by decide
+/-! ### non-vacuity: the hypotheses are met by the hard schedules, and the conclusions are not trivial -/
 
-/-! ### non-vacuity: hazard-free schedules of the code as it is that do exercise supersession -/
-
-/-- a generator superseded by a generator, completions out of order, then overridden by a plain value -/
+/-- (a) a plain value assigned while the coroutine is suspended -/
+def witnessA : List Event := [.assign 0 .coro, .tick, .assign 0 (.plain 100), .complete 0 0 10, .tick]
+/-- (b) two coroutine tasks overlap and complete in start order -/
+def witnessB : List Event :=
+  [.assign 0 .coro, .assign 1 .coro, .tick, .complete 0 0 10, .tick, .complete 1 0 20, .tick]
+/-- (c) three asynchronous assignments, the first two back to back; the superseded ones complete last -/
+def witnessC : List Event :=
+  [.assign 0 (.agen 1), .assign 0 (.agen 1), .tick, .assign 0 (.agen 1), .tick, .complete 2 0 30, .tick,
+   .complete 1 0 20, .complete 0 0 10, .tick]
+/-- (d) a plain value assigned before the scheduled task has started -/
+def witnessD : List Event := [.assign 0 (.agen 1), .assign 0 (.plain 100), .tick, .complete 0 0 10, .tick]
+/-- (c') a superseded result that is already complete when its stale task starts -/
+def witnessC' : List Event := [.assign 0 (.agen 1), .assign 0 (.agen 1), .complete 0 0 10]
+/-- a generator with two awaits superseded by a generator, completions out of order, a coroutine on
+the other parameter, then a plain override -/
 def calmSchedule : List Event :=
   [.assign 0 (.agen 2), .tick, .complete 0 0 11, .tick, .assign 0 (.agen 1), .tick, .complete 0 1 12, .complete 1 0 20,
    .tick, .assign 1 .coro, .tick, .assign 0 (.plain 100), .complete 2 0 30, .tick]
 
-example : HazardFree Cfg.current calmSchedule := by unfold HazardFree; decide
-example : (run Cfg.current calmSchedule).ready = [] ∧ (run Cfg.current calmSchedule).last 1 = .task 2 ∧
-    (run Cfg.current calmSchedule).last 0 = .plain 100 ∧ allSettled (run Cfg.current calmSchedule) = true ∧
-    (run Cfg.current calmSchedule).vals 1 = 30 ∧ (run Cfg.current calmSchedule).vals 0 = 100 ∧
-    (run Cfg.current calmSchedule).log = [(0, 11), (0, 20), (0, 100), (1, 30)] := by decide
+-- hypotheses of `latest_wins` on (c): idle, latest = task 2, settled; conclusion: p0 holds 30, not the later 20 / 10
+example : (run Cfg.repo witnessC).ready = [] ∧ (run Cfg.repo witnessC).last 0 = .task 2 ∧
+    (run Cfg.repo witnessC).tasks 2 = some ⟨0, .agen 1, .finished, false⟩ ∧
+    settled (run Cfg.repo witnessC) 2 (.agen 1) = true ∧ (run Cfg.repo witnessC).vals 0 = 30 ∧
+    (run Cfg.repo witnessC).log = [(0, 30)] := by decide
+-- `plain_assignment_cancels_for_good` on (a) and (d); `syncing_empty_when_quiescent` on (b)
+example : (run Cfg.repo witnessA).last 0 = .plain 100 ∧ (run Cfg.repo witnessA).vals 0 = 100 ∧
+    (run Cfg.repo witnessD).last 0 = .plain 100 ∧ (run Cfg.repo witnessD).vals 0 = 100 ∧
+    (run Cfg.repo witnessB).ready = [] ∧ allSettled (run Cfg.repo witnessB) = true ∧
+    (run Cfg.repo witnessB).syncing = [] ∧ (run Cfg.repo witnessB).vals 0 = 10 ∧ (run Cfg.repo witnessB).vals 1 = 20 ∧
+    (run Cfg.repo (witnessC' ++ [.tick])).log = [] := by decide
+example : (run Cfg.repo calmSchedule).ready = [] ∧ (run Cfg.repo calmSchedule).last 1 = .task 2 ∧
+    (run Cfg.repo calmSchedule).last 0 = .plain 100 ∧ allSettled (run Cfg.repo calmSchedule) = true ∧
+    (run Cfg.repo calmSchedule).vals 1 = 30 ∧ (run Cfg.repo calmSchedule).vals 0 = 100 ∧
+    (run Cfg.repo calmSchedule).log = [(0, 11), (0, 20), (0, 100), (1, 30)] := by decide
+/-- rx: the older evaluation completes last, its result is dropped -/
+example : (Rx.run [.set 20, .tick, .complete 1 20, .tick, .complete 0 10, .tick]).cur = some 20 ∧
+    (Rx.run [.set 20, .tick, .complete 1 20, .tick, .complete 0 10, .tick]).ready = [] ∧
+    Rx.allDone (Rx.run [.set 20, .tick, .complete 1 20, .tick, .complete 0 10, .tick]) = true := by decide
+
+/-! ### REGRESSION: the configuration before commits 08165dc / 0c5ea5c (`Cfg.preFix`)
+
+Nothing below is about the code in /repo.  These theorems record why the two fixes were needed (the
+property was false: four witness schedules) and what the old code did guarantee; they keep the
+pre-fix branches of the model exercised by a kernel-checked evaluation. -/
+
+theorem old_code_plain_assignment_cancels_for_good_refuted : ¬ PlainCancelsForGood Cfg.preFix (fun _ => True) := by
+  intro h
+  have := (h witnessA 0 100 trivial (by decide)).1
+  revert this
+  decide
+
+/-- … also without any `_syncing` scope involved (generators only) -/
+theorem old_code_plain_assignment_before_task_start_refuted :
+    ¬ PlainCancelsForGood Cfg.preFix (fun _ => True) := by
+  intro h
+  have := (h witnessD 0 100 trivial (by decide)).1
+  revert this
+  decide
+
+theorem old_code_syncing_empty_when_quiescent_refuted : ¬ SyncingEmptyWhenQuiescent Cfg.preFix (fun _ => True) := by
+  intro h
+  have := (h witnessB trivial (by decide) (by decide)).1
+  revert this
+  decide
+
+theorem old_code_latest_wins_refuted : ¬ LatestWins Cfg.preFix (fun _ => True) := by
+  intro h
+  have := h witnessC 0 2 ⟨0, .agen 1, .finished, false⟩ trivial (by decide) (by decide) (by decide) (by decide) (by decide)
+  revert this
+  decide
+
+theorem old_code_superseded_never_applied_after_newer_refuted :
+    ¬ SupersededNeverApplied Cfg.preFix (fun _ => True) := by
+  intro h
+  have := h witnessC' .tick 0 10 trivial (by decide)
+  revert this
+  decide
+
+/-- the property was false of the pre-fix code -/
+theorem old_code_refuted : ¬ C10 Cfg.preFix (fun _ => True) :=
+  fun h => old_code_plain_assignment_cancels_for_good_refuted h.2.2.1
+
+/-- what the pre-fix code did guarantee: every schedule meeting none of the three situations -/
+theorem old_code_partial : C10 Cfg.preFix (HazardFree Cfg.preFix) :=
+  ⟨latest_wins_hazard_free _, superseded_never_applied_after_newer_hazard_free _,
+   plain_assignment_cancels_for_good_hazard_free _, syncing_empty_when_quiescent_hazard_free _⟩
+
+/-- the witnesses are schedules `old_code_partial` excludes; `calmSchedule` is one it covers -/
+example : ¬ HazardFree Cfg.preFix witnessA ∧ ¬ HazardFree Cfg.preFix witnessB ∧ ¬ HazardFree Cfg.preFix witnessC ∧
+    ¬ HazardFree Cfg.preFix witnessD ∧ ¬ HazardFree Cfg.preFix witnessC' ∧ HazardFree Cfg.preFix calmSchedule := by
+  unfold HazardFree; decide
 
 end ParamVerif.Async
